@@ -431,9 +431,9 @@ theorem objectiveMtl_eq (t : Nat) (C : List (List ℝ)) (Y W : List (List ℝ)) 
     frob_colsOf t W W hW hW
   rw [h3]
 
-/-! ### the residual invariant of block coordinate descent (over ℝ, `eps = 0`) -/
+/-! ### the residual invariant of block coordinate descent (over ℝ) -/
 
-/-- with `eps = 0` the guard `abs_diff_ne!(‖v‖₂, 0)` only skips updates that change nothing -/
+/-- the guard `‖v‖₂ != 0` only skips updates that change nothing -/
 theorem rankOne_if_zero (neg : Bool) (t : Nat) (cj v : List ℝ) (R : List (List ℝ)) (hv : v.length = t)
     (hR : ∀ r ∈ R, r.length = t) (hcj : cj.length = R.length) :
     (if absS (norm2U v) ≤ 0 then R else rankOne neg cj v R) = rankOne neg cj v R := by
@@ -462,7 +462,7 @@ def BcdInv (t : Nat) (C : List (List ℝ)) (Y : List (List ℝ)) (st : BcdState 
 
 theorem bcdCoord_inv (contig : Bool) (t : Nat) (thr denAdd : ℝ) (C : List (List ℝ)) (Y : List (List ℝ))
     (st : BcdState ℝ) (j : Nat) (cj : List ℝ) (nrm : ℝ) (hC : ∀ c ∈ C, c.length = Y.length)
-    (hcj : C[j]? = some cj) (h : BcdInv t C Y st) : BcdInv t C Y (bcdCoord contig t 0 thr denAdd st j cj nrm) := by
+    (hcj : C[j]? = some cj) (h : BcdInv t C Y st) : BcdInv t C Y (bcdCoord contig t thr denAdd st j cj nrm) := by
   obtain ⟨hrn, hrt, hwp, hwt, hres⟩ := h
   unfold bcdCoord
   split
@@ -503,7 +503,7 @@ theorem bcdCoord_inv (contig : Bool) (t : Nat) (thr denAdd : ℝ) (C : List (Lis
 theorem bcdSweepGo_inv (contig : Bool) (t : Nat) (thr denAdd : ℝ) (C : List (List ℝ)) (Y : List (List ℝ))
     (hC : ∀ c ∈ C, c.length = Y.length) (Cr : List (List ℝ)) :
     ∀ (j : Nat) (ns : List ℝ) (st : BcdState ℝ), (∀ k, Cr[k]? = C[j + k]?) → BcdInv t C Y st →
-      BcdInv t C Y (bcdSweepGo contig t 0 thr denAdd j Cr ns st) := by
+      BcdInv t C Y (bcdSweepGo contig t thr denAdd j Cr ns st) := by
   induction Cr with
   | nil => intro j ns st _ h; simpa [bcdSweepGo] using h
   | cons c Cr ih =>
@@ -521,11 +521,11 @@ theorem bcdSweepGo_inv (contig : Bool) (t : Nat) (thr denAdd : ℝ) (C : List (L
         have := hk 0
         simpa using this.symm
 
-theorem bcdLoop_certificate (contig : Bool) (t : Nat) (thr denAdd : ℝ) (C : List (List ℝ)) (norms : List ℝ)
+theorem bcdLoop_certificate (contig : Bool) (t : Nat) (eps thr denAdd : ℝ) (C : List (List ℝ)) (norms : List ℝ)
     (Y : List (List ℝ)) (n tol tolS l1r pen : ℝ) (maxSteps : Nat) (hC : ∀ c ∈ C, c.length = Y.length) :
     ∀ (fuel steps : Nat) (w r : List (List ℝ)) (gap : ℝ) (w' : List (List ℝ)) (g' : ℝ) (s' : Nat),
       BcdInv t C Y { w := w, r := r, wMax := 0, dwMax := 0 } →
-      bcdLoop contig t 0 thr denAdd C norms Y n tol tolS l1r pen maxSteps fuel steps w r gap = (w', g', s') →
+      bcdLoop contig t eps thr denAdd C norms Y n tol tolS l1r pen maxSteps fuel steps w r gap = (w', g', s') →
       s' ≤ steps + fuel ∧
         (s' < steps + fuel → ∃ r', BcdInv t C Y { w := w', r := r', wMax := 0, dwMax := 0 } ∧
           g' = dualityGapMtl t C Y w' r' l1r pen n ∧ g' < tolS) := by
@@ -538,10 +538,10 @@ theorem bcdLoop_certificate (contig : Bool) (t : Nat) (thr denAdd : ℝ) (C : Li
     exact ⟨le_refl _, fun h => absurd h (lt_irrefl _)⟩
   | succ fuel ih =>
     intro steps w r gap w' g' s' hinv0 h
-    have hinv : BcdInv t C Y (bcdSweepGo contig t 0 thr denAdd 0 C norms { w := w, r := r, wMax := 0, dwMax := 0 }) :=
+    have hinv : BcdInv t C Y (bcdSweepGo contig t thr denAdd 0 C norms { w := w, r := r, wMax := 0, dwMax := 0 }) :=
       bcdSweepGo_inv contig t thr denAdd C Y hC C 0 norms _ (fun k => by simp) hinv0
     simp only [bcdLoop] at h
-    generalize bcdSweepGo contig t 0 thr denAdd 0 C norms { w := w, r := r, wMax := 0, dwMax := 0 } = st at hinv h
+    generalize bcdSweepGo contig t thr denAdd 0 C norms { w := w, r := r, wMax := 0, dwMax := 0 } = st at hinv h
     have hinv' : BcdInv t C Y { w := st.w, r := st.r, wMax := 0, dwMax := 0 } := hinv
     split at h
     · split at h
